@@ -86,6 +86,52 @@ def h_rejected(f, kind):
     return body
 
 
+def h_reject_then(f, kind, then):
+    """an unsupported (un-pastified) formula is rejected by the first update(); the object must stay usable:
+    then='again' - every further update() is rejected with RTAMTException again (never another exception, never a value);
+    then='pastify' - after pastify() (the documented remedy) update() returns normally"""
+    f = T(f)
+    vs = sorted(variables(f))
+
+    def body(env):
+        import rtamt
+        A = env.A
+        dense = kind.startswith('ct')
+        s = (ct.make_spec('combined' if 'combined' in kind else 'online', 'out = ' + text(f), vs) if dense
+             else dt.make_spec('combined' if 'combined' in kind else 'online', 'out = ' + text(f), vs))
+        if dense:
+            sigs = {v: ct.signal(env, v, 2, 'zero') for v in vs}
+            call = lambda: s.update(*[[v, [list(p) for p in sigs[v]]] for v in vs])
+        else:
+            w = dt.trace(env, vs, 4)
+            step = [0]
+
+            def call():
+                i = step[0]
+                step[0] += 1
+                return s.update(i, [(v, w[v][i]) for v in vs])
+        res = []
+        try:
+            call()
+            return [('first-update-rejected', A.false)]
+        except rtamt.RTAMTException:
+            res.append(('first-update-rejected', A.true))
+        if then == 'again':
+            for k in (2, 3):
+                try:
+                    call()
+                    res.append(('update-%d-rejected' % k, A.false))
+                except rtamt.RTAMTException:
+                    res.append(('update-%d-rejected' % k, A.true))
+        else:
+            s.pastify()
+            out = call()
+            env.observe('value', 0)
+            res.append(('update-after-pastify-returns', A.bool(out is not None)))
+        return res
+    return body
+
+
 def obligations(tier, rng):
     quick = tier == 'quick'
     out = []
@@ -133,6 +179,15 @@ def obligations(tier, rng):
             f = wfn(g)
             for kind in ('dt-online', 'dt-combined'):
                 out.append(ob('C17', 'rejected', 'reject/%s/%s' % (kind, text(f)), f=f, kind=kind, validate=0))
+    for g in [('always_t', ('geq', X, ('const', 1.0)), 0, 2), ('eventually_t', X, 0, 1), ('and', ('next', X), Y), ('until_t', X, Y, 0, 1)]:
+        for kind in ('dt-online', 'dt-combined'):
+            out.append(ob('C17', 'reject_then', 'reject-then-pastify/%s/%s' % (kind, text(g)), f=g, kind=kind, then='pastify', validate=0))
+            out.append(ob('C17', 'reject_then', 'reject-again/%s/%s' % (kind, text(g)), f=g, kind=kind, then='again', validate=0))
+    for g in [('always', ('geq', X, ('const', 0.0))), ('and', ('geq', X, ('const', 1.0)), ('eventually', Y))]:
+        for kind in ('dt-online', 'ct-online', 'ct-combined'):
+            out.append(ob('C17', 'reject_then', 'reject-again/%s/%s' % (kind, text(g)), f=g, kind=kind, then='again', validate=0))
+    for g in [('always_t', X, 0, 1), ('eventually_t', ('geq', X, ('const', 1.0)), 0, 1)]:
+        out.append(ob('C17', 'reject_then', 'reject-then-pastify/ct-online/%s' % text(g), f=g, kind='ct-online', then='pastify', validate=0))
     dense_bad = [('prev', X), ('next', X), ('s_prev', X), ('s_next', X), ('rise', X), ('fall', X)]
     for g in dense_bad:
         for wfn in (wraps_ct if not quick else wraps_ct[:3]):
